@@ -551,7 +551,7 @@ def loadDirs (s : FS FileNode Ptr Store) : Nat → List String → Option (FS Fi
       if d == 0 then none else loadDirs s (parentOf s.dirs d) rest
     else match child s.ents d name with
       | none =>
-        let (s', n) := addNode (concImpl (fun _ => "") 1) s d name true
+        let (s', n) := addNode (concImpl (fun _ => []) 1) s d name true
         (match n with
          | Node.dir k => loadDirs s' k rest
          | Node.file _ => none)
